@@ -467,6 +467,22 @@ DOCUMENTED_INPLACE = {("kicks", "natal_kicks"), ("kicks", "_unbound_natal_kicks"
                       ("evolve_mf", "EvolvedMFWithBH._dyn_eject_BH")}
 
 
+FRESH_CALLS = {"dict", "list", "tuple", "set", "sorted", "copy.copy", "copy.deepcopy", "np.array", "np.copy", "np.zeros", "np.empty",
+               "np.ones", "np.full", "np.sum", "np.cumsum"}
+
+
+def is_fresh(node):
+    """does evaluating this expression always create a new object (so the assigned name no longer aliases a parameter)?"""
+    if isinstance(node, (ast.Dict, ast.List, ast.Tuple, ast.Set, ast.Constant, ast.BinOp, ast.ListComp, ast.DictComp)):
+        return True
+    if isinstance(node, ast.IfExp):
+        return is_fresh(node.body) and is_fresh(node.orelse)
+    if isinstance(node, ast.Call):
+        f = ast.unparse(node.func)
+        return f in FRESH_CALLS or f.endswith(".copy")
+    return False
+
+
 def mutation_sites(trees):
     sites = []
     for modname, paths in PUBLIC.items():
@@ -491,11 +507,8 @@ def mutation_sites(trees):
                                 # (only unconditional, top-level rebinding kills the alias)
                                 # rebinding a parameter name to something else: conservative only when
                                 # the new value is a fresh object built by a call/literal
-                                if isinstance(n.value, (ast.Call, ast.Dict, ast.List, ast.BinOp, ast.IfExp, ast.Constant)):
-                                    src = ast.unparse(n.value)
-                                    # `np.asarray(x)` / `x if .. else ..` may still alias
-                                    if not re.search(r"as(any)?array|atleast_1d|\bif\b", src):
-                                        rebound.add((t.id, n.lineno))
+                                if is_fresh(n.value):
+                                    rebound.add((t.id, n.lineno))
                 def base(e):
                     while isinstance(e, (ast.Subscript, ast.Attribute)):
                         e = e.value
